@@ -95,6 +95,11 @@ type vfxCase struct {
 	// the lying size delimits a unit that lies entirely inside the buffer the decoder sees
 	// (so it is not a truncation): only an error is acceptable
 	MustError bool `json:"must_error,omitempty"`
+	// the lying field is the records size of a fetch partition: everything behind that
+	// partition is framed anew, and because a records area may end in a partial unit
+	// (which is dropped silently) the new framing can be self-consistent. Records are
+	// then only required to be authentic (see vfxCheckClause).
+	Reframe bool `json:"reframe,omitempty"`
 
 	// fetch-parse: the partition the consumer reads, its next offset, isolation level
 	ChildOffset   int64 `json:"child_offset,omitempty"`
@@ -1196,6 +1201,42 @@ func vfxCheckClause(c *vfxCase, o *vfxOutcome, r *vfcore.Rec) *vfcore.Failure {
 	}
 	want := vfxFlatValue(base.Value, base.Msgs, parse)
 	got := vfxFlatValue(o.Value, o.Msgs, parse)
+	if c.Reframe {
+		// Every unit carries its own checksum, the envelope around the units carries none:
+		// behind a lying records size the envelope may be read differently (another
+		// partition id, one aborted transaction fewer, ...) and still be consistent, so the
+		// partition a unit is attributed to is not protected by anything. What must hold:
+		// every record that surfaces is a record of the original response (offsets and
+		// timestamps are left out of the comparison one level up, where they are derived).
+		all := vfxFlatValue(base.Value, nil, false)
+		pool := map[string]int{}
+		key := func(f vfxFlat) string {
+			if parse {
+				// one level up offsets and timestamps are derived (wrapper base offset, batch
+				// first timestamp): compare what is copied verbatim
+				f.Ts, f.Offset = 0, 0
+			}
+			b, _ := json.Marshal(f)
+			return string(b)
+		}
+		for _, fl := range all {
+			for _, f := range fl {
+				pool[key(f)]++
+			}
+		}
+		for k, fl := range got {
+			for _, f := range fl {
+				if pool[key(f)] == 0 {
+					bad := fmt.Sprintf("partition %q/%d carries a record (offset %d) that the original response does not contain", k.Topic, k.Partition, f.Offset)
+					return &vfcore.Failure{Symptom: "wrong-records", Message: fmt.Sprintf("%s %s v%d (%s): decode returned no error and %s; input %s, original %s", c.Entry, c.Type, c.Version, c.Mut, bad, vfxHex(c.Input), vfxHex(c.Orig)),
+						History: vfxHist(c, o, bad)}
+				}
+				pool[key(f)]--
+			}
+		}
+		r.Classf("clause:%s:%s:accepted-authentic-records", c.Clause, vfxGroup(c.Entry))
+		return nil
+	}
 	bad := ""
 	var keys []vfxTP
 	for k := range got {
